@@ -72,6 +72,7 @@ type Ctx struct {
 	Vars  []*Term
 	T, F  *Term
 	nvars map[string]int
+	small [512]*Term
 }
 
 func NewCtx() *Ctx {
@@ -110,7 +111,20 @@ func (c *Ctx) Const(w uint8, v uint64) *Term {
 	if w == 0 {
 		panic("Const with width 0")
 	}
-	return c.mk(OpConst, w, nil, nil, nil, v&mask(w), "")
+	v &= mask(w)
+	if v < 256 && (w == 8 || w == 64) {
+		i := int(v)
+		if w == 64 {
+			i += 256
+		}
+		if t := c.small[i]; t != nil {
+			return t
+		}
+		t := c.mk(OpConst, w, nil, nil, nil, v, "")
+		c.small[i] = t
+		return t
+	}
+	return c.mk(OpConst, w, nil, nil, nil, v, "")
 }
 
 func (c *Ctx) Bool(b bool) *Term {
